@@ -2,3 +2,4 @@ import Properties.C14
 import Properties.C01
 import Properties.C16
 import Properties.C04
+import Properties.C20
